@@ -1,6 +1,7 @@
 CONSTANTS
   MaxId = 3
   ZeroIncBug = FALSE
+  OpenCleanupBug = FALSE
   OpenRaceBug = TRUE
   W = 1
   B = 2
